@@ -53,11 +53,24 @@ impl Shape {
         self.leaves().len()
     }
     fn literal(self, cells: &[i64]) -> String {
+        let v: Vec<String> = cells.iter().map(|c| c.to_string()).collect();
+        self.literal_s(&v)
+    }
+    /// the literal with arbitrary member expressions
+    fn literal_s(self, cells: &[String]) -> String {
         match self {
             Shape::Pt => format!("Pt.{{ x = {}, y = {} }}", cells[0], cells[1]),
-            Shape::W => format!("W.{{ g = {}, p = {}, h = {} }}", cells[0], Shape::Pt.literal(&cells[1..3]), cells[3]),
-            Shape::A2 => format!("Pt.[ {}, {} ]", Shape::Pt.literal(&cells[0..2]), Shape::Pt.literal(&cells[2..4])),
+            Shape::W => format!("W.{{ g = {}, p = {}, h = {} }}", cells[0], Shape::Pt.literal_s(&cells[1..3]), cells[3]),
+            Shape::A2 => format!("Pt.[ {}, {} ]", Shape::Pt.literal_s(&cells[0..2]), Shape::Pt.literal_s(&cells[2..4])),
             Shape::N3 => format!("i32.[ {}, {}, {} ]", cells[0], cells[1], cells[2]),
+        }
+    }
+    fn first_fn(self) -> &'static str {
+        match self {
+            Shape::Pt => "first_pt",
+            Shape::W => "first_w",
+            Shape::A2 => "first_a2",
+            Shape::N3 => "first_n3",
         }
     }
     fn id_fn(self) -> &'static str {
@@ -84,10 +97,13 @@ enum Op {
     /// how: 0 direct, 1 through the pointer companion, 2 in a callee
     Set { x: usize, leaf: usize, v: i64, how: u32 },
     Assign { dst: usize, dsub: usize, src: usize, ssub: usize },
+    /// `x = T.{ … }` whose members are constants (`Err(c)`) or cells `(var, leaf)` of variables — of
+    /// `x` itself too: the literal must be built from the OLD values
+    Lit { x: usize, srcs: Vec<Result<(usize, usize), i64>> },
     Obs { x: usize, leaf: usize },
 }
 
-pub const N_FORMS: u32 = 9;
+pub const N_FORMS: u32 = 10;
 pub fn form_name(f: u32) -> &'static str {
     match f {
         0 => "c := s",
@@ -98,6 +114,7 @@ pub fn form_name(f: u32) -> &'static str {
         5 => "c :: id(s)",
         6 => "c :: p^ (deref of a pointer to s)",
         7 => "c :: `b: { if t { break `b s; } s }",
+        9 => "c := first(id(s), id(literal)) (two register-returned aggregates alive in one expression)",
         _ => "c := literal; c = s",
     }
 }
@@ -120,6 +137,7 @@ impl Prog {
     fn to_capy(&self) -> String {
         let mut s = String::from("core :: #mod(\"core\");\n\nPt :: struct { x: i32, y: i32 };\nW :: struct { g: u8, p: Pt, h: u8 };\n\n");
         s.push_str("id_pt :: (v: Pt) -> Pt { v }\nid_w :: (v: W) -> W { v }\nid_a2 :: (v: [2]Pt) -> [2]Pt { v }\nid_n3 :: (v: [3]i32) -> [3]i32 { v }\n");
+        s.push_str("first_pt :: (p: Pt, q: Pt) -> Pt { p }\nfirst_w :: (p: W, q: W) -> W { p }\nfirst_a2 :: (p: [2]Pt, q: [2]Pt) -> [2]Pt { p }\nfirst_n3 :: (p: [3]i32, q: [3]i32) -> [3]i32 { p }\n");
         s.push_str("set_i32 :: (p: ^mut i32, v: i32) { p^ = v; }\nset_u8 :: (p: ^mut u8, v: u8) { p^ = v; }\n\nmain :: () {\n    t := true;\n");
         for op in &self.ops {
             match op {
@@ -141,6 +159,10 @@ impl Prog {
                         5 => format!("v{dst} :: {}({direct});", shape.id_fn()),
                         6 => format!("v{dst} :: {};", place(&self.vars, *src, path, true)),
                         7 => format!("v{dst} :: `b{dst}: {{ if t {{ break `b{dst} {direct}; }} {direct} }};"),
+                        9 => {
+                            let other = vec![77i64; shape.len()];
+                            format!("v{dst} := {}({}({direct}), {}({}));", shape.first_fn(), shape.id_fn(), shape.id_fn(), shape.literal(&other))
+                        }
                         _ => {
                             let zeros = vec![0i64; shape.len()];
                             format!("v{dst} := {};\n    v{dst} = {direct};", shape.literal(&zeros))
@@ -162,6 +184,16 @@ impl Prog {
                     let (dp, _, _) = self.vars[*dst].shape.subs()[*dsub];
                     let (sp, _, _) = self.vars[*src].shape.subs()[*ssub];
                     s.push_str(&format!("    {} = {};\n", place(&self.vars, *dst, dp, false), place(&self.vars, *src, sp, false)));
+                }
+                Op::Lit { x, srcs } => {
+                    let exprs: Vec<String> = srcs
+                        .iter()
+                        .map(|s| match s {
+                            Err(c) => c.to_string(),
+                            Ok((v, leaf)) => place(&self.vars, *v, self.vars[*v].shape.leaves()[*leaf].0, false),
+                        })
+                        .collect();
+                    s.push_str(&format!("    v{x} = {};\n", self.vars[*x].shape.literal_s(&exprs)));
                 }
                 Op::Obs { x, leaf } => {
                     let (path, _) = self.vars[*x].shape.leaves()[*leaf];
@@ -195,6 +227,10 @@ impl Prog {
                     let (_, _, soff) = self.vars[*src].shape.subs()[*ssub];
                     format!("a {dst} {doff} {src} {soff} {}", shape.len())
                 }
+                Op::Lit { x, srcs } => format!(
+                    "l {x} {}",
+                    srcs.iter().map(|s| match s { Err(c) => format!("k{c}"), Ok((v, l)) => format!("c{v}.{l}") }).collect::<Vec<_>>().join(" ")
+                ),
                 Op::Obs { x, leaf } => format!("o {x} {leaf}"),
             });
         }
@@ -217,6 +253,10 @@ impl Prog {
                     let (_, _, soff) = self.vars[*src].shape.subs()[*ssub];
                     let vals: Vec<i64> = store[*src][soff..soff + shape.len()].to_vec();
                     store[*dst][doff..doff + shape.len()].copy_from_slice(&vals);
+                }
+                Op::Lit { x, srcs } => {
+                    let vals: Vec<i64> = srcs.iter().map(|s| match s { Err(c) => *c, Ok((v, l)) => store[*v][*l] }).collect();
+                    store[*x] = vals;
                 }
                 Op::Obs { x, leaf } => out.push(store[*x][*leaf]),
             }
@@ -255,7 +295,7 @@ fn gen(rng: &mut Rng, rep: &mut Report) -> Prog {
             let subs = vars[src].shape.subs();
             let sub = rng.below(subs.len() as u64) as usize;
             let form = rng.below(N_FORMS as u64) as u32;
-            let mutable = matches!(form, 0 | 2 | 8);
+            let mutable = matches!(form, 0 | 2 | 8 | 9);
             vars.push(Var { shape: subs[sub].1, mutable });
             rep.hit(&format!("copy-form:{}", form_name(form)));
             rep.hit(if sub == 0 { "copy-source:whole-variable" } else { "copy-source:field-or-element" });
@@ -271,7 +311,35 @@ fn gen(rng: &mut Rng, rep: &mut Report) -> Prog {
             let how = rng.below(3) as u32;
             rep.hit(["write:direct", "write:through-pointer", "write:in-callee"][how as usize]);
             ops.push(Op::Set { x, leaf, v: fresh(leaves[leaf].1), how });
-        } else if c < 74 {
+        } else if c < 68 {
+            // assignment of a literal whose members read variables, the destination included
+            let muts: Vec<usize> = (0..vars.len()).filter(|i| vars[*i].mutable).collect();
+            if muts.is_empty() {
+                continue;
+            }
+            let x = *rng.pick(&muts);
+            let leaves = vars[x].shape.leaves();
+            let mut srcs = vec![];
+            for (_, max) in &leaves {
+                // a cell of the same kind (u8 cells only from u8 cells) of x itself (2/3) or of any variable
+                let small = *max < 1000;
+                let mut cands: Vec<(usize, usize)> = vec![];
+                for (v, var) in vars.iter().enumerate() {
+                    for (l, (_, m)) in var.shape.leaves().iter().enumerate() {
+                        if (*m < 1000) == small && (v == x || rng.chance(1, 3)) {
+                            cands.push((v, l));
+                        }
+                    }
+                }
+                if cands.is_empty() || rng.chance(1, 5) {
+                    srcs.push(Err(fresh(*max)));
+                } else {
+                    srcs.push(Ok(*rng.pick(&cands)));
+                }
+            }
+            rep.hit(if srcs.iter().any(|s| matches!(s, Ok((v, _)) if *v == x)) { "literal-assign:reads-its-destination" } else { "literal-assign:other-sources" });
+            ops.push(Op::Lit { x, srcs });
+        } else if c < 76 {
             // aggregate assignment between places of the same shape
             let muts: Vec<usize> = (0..vars.len()).filter(|i| vars[*i].mutable).collect();
             if muts.is_empty() {
@@ -331,13 +399,27 @@ fn corpus() -> Vec<Prog> {
         }
         v.push(Prog { vars, ops });
     }
+    // `p = P.{ x = p.y, y = p.x }` and the array version (the pinned compiler built the literal in place)
+    v.push(Prog {
+        vars: vec![Var { shape: Shape::Pt, mutable: true }, Var { shape: Shape::N3, mutable: true }],
+        ops: vec![
+            Op::Init { x: 0, cells: vec![1, 2] },
+            Op::Init { x: 1, cells: vec![10, 20, 30] },
+            Op::Lit { x: 0, srcs: vec![Ok((0, 1)), Ok((0, 0))] },
+            Op::Lit { x: 1, srcs: vec![Ok((1, 2)), Ok((1, 1)), Ok((1, 0))] },
+            Op::Obs { x: 0, leaf: 0 },
+            Op::Obs { x: 0, leaf: 1 },
+            Op::Obs { x: 1, leaf: 0 },
+            Op::Obs { x: 1, leaf: 2 },
+        ],
+    });
     v
 }
 
 pub fn run(rep: &mut Report, rng: &mut Rng, tier: &str, widen: bool) {
     let n = if widen { 400 } else if tier == "thorough" { 160 } else { 24 };
     let mut progs = corpus();
-    while progs.len() < n + N_FORMS as usize {
+    while progs.len() < n + N_FORMS as usize + 1 {
         progs.push(gen(rng, rep));
     }
     let sources: Vec<Program> = progs.iter().map(|p| Program::single(&p.to_capy())).collect();
